@@ -964,6 +964,25 @@ pub fn customs_family(tier: Tier) -> Vec<Member> {
         w.extend_from_slice(&body);
         out.push(Member { family: "customs", coords: format!("[padded-name-leb:{}:{}]", nm, pad), wasm: w });
     }
+    // DWARF sections (dropped unless DWARF generation is on) in front of, between and behind unknown
+    // sections: whatever happens to them, the unknown ones keep their relative order
+    for (k, layout) in [[".debug_str", "a", "b", "c"], ["a", ".debug_info", "b", "c"], ["a", "b", ".debug_line", "c"], [".debug_abbrev", ".debug_info", "b", "a"]].iter().enumerate() {
+        for gap in [0usize, 12] {
+            let mut mb = base.clone();
+            for (i, n) in layout.iter().enumerate() {
+                mb.customs.push((gap, n.to_string(), if n.starts_with(".debug") { vec![0u8] } else { payload(i + 1, 20 + i as u8) }));
+            }
+            out.push(Member { family: "customs", coords: format!("debug-sections-among-unknown #{} gap={}", k, gap), wasm: mb.build() });
+        }
+    }
+    // a producers section that already records walrus, with an older version (a module that went
+    // through a tool built on an older walrus), next to unknown sections
+    for fields in [vec![("processed-by", vec![("walrus", "0.1.0")])], vec![("processed-by", vec![("clang", "15"), ("walrus", "0.19.0"), ("walrus", "0.20.0")])], vec![("language", vec![("Rust", "1"), ("Rust", "2")])]] {
+        let mut mb = base.clone();
+        mb.customs.push((12, "producers".to_string(), producers(&fields)));
+        mb.customs.push((12, "a".to_string(), payload(2, 33)));
+        out.push(Member { family: "customs", coords: format!("producers {:?}", fields).chars().take(120).collect(), wasm: mb.build() });
+    }
     // sections with tool-convention names (in front of everything, and at the end)
     for (k, (n, pl)) in tool_convention_customs().into_iter().enumerate() {
         for gap in [0usize, 12] {
@@ -1917,6 +1936,25 @@ pub fn minimal_family() -> Vec<Member> {
         ("dup-import-global-second-used", r#"(module (import "env" "g" (global $a i32)) (import "env" "g" (global $b i32)) (func (export "run") (result i32) (i32.const 8305) (drop) (global.get $b)))"#),
         ("dup-import-table-first-used", r#"(module (import "env" "t" (table $a 1 funcref)) (import "env" "t" (table $b 2 funcref)) (func (export "run") (result i32) (i32.const 8306) (drop) (table.size $a)))"#),
         ("dup-import-mixed-kinds", r#"(module (import "env" "x" (func $f)) (import "env" "x" (global $g i32)) (import "env" "x" (table $t 1 funcref)) (func (export "run") (result i32) (i32.const 8307) (drop) (global.get $g)))"#),
+        // modules that need exactly one proposal beyond the MVP (so that needing *another* one afterwards is visible)
+        ("only-threads-imported-shared-memory", r#"(module (import "env" "m" (memory 1 2 shared)))"#),
+        ("only-threads-local-shared-memory-atomics", r#"(module (memory 1 2 shared) (func (export "f") (result i32) (i32.atomic.load (i32.const 0))))"#),
+        ("only-memory64-imported", r#"(module (import "env" "m" (memory i64 1)))"#),
+        ("only-memory64-local-used", r#"(module (memory i64 1) (func (export "f") (result i32) (i32.load (i64.const 0))))"#),
+        ("only-memory64-data-at-imported-i64-global", r#"(module (import "a" "g" (global $g i64)) (memory i64 1) (data (global.get $g) "x"))"#),
+        ("only-memory64-table64-elem-at-imported-i64-global", r#"(module (import "a" "g" (global $g i64)) (table i64 2 funcref) (func $f) (elem (global.get $g) func $f))"#),
+        ("only-mutable-global-export", r#"(module (global (export "g") (mut i32) (i32.const 0)))"#),
+        ("only-mutable-global-import", r#"(module (import "a" "g" (global (mut i32))))"#),
+        ("only-sign-extension", r#"(module (func (export "f") (param i32) (result i32) (i32.extend8_s (local.get 0))))"#),
+        ("only-saturating-float-to-int", r#"(module (func (export "f") (param f32) (result i32) (i32.trunc_sat_f32_s (local.get 0))))"#),
+        ("only-multi-value-function", r#"(module (func (export "f") (result i32 i32) (i32.const 1) (i32.const 2)))"#),
+        ("only-multi-value-block-param", r#"(module (func (export "f") (param i32) (result i32) (local.get 0) (block (param i32) (result i32)) (loop (param i32) (result i32))))"#),
+        ("only-bulk-memory-passive-data", r#"(module (memory 1) (data "p") (func (export "f") (memory.init 0 (i32.const 0) (i32.const 0) (i32.const 1)) (memory.fill (i32.const 0) (i32.const 0) (i32.const 0))))"#),
+        ("only-reference-types-externref-table", r#"(module (table 1 externref) (func (export "f") (result i32) (ref.is_null (table.get 0 (i32.const 0)))))"#),
+        ("only-simd", r#"(module (func (export "f") (result i32) (i32x4.extract_lane 2 (v128.const i8x16 1 2 3 4 5 6 7 8 9 10 11 12 13 14 15 16))))"#),
+        ("only-tail-call", r#"(module (func $g (result i32) (i32.const 1)) (func (export "f") (result i32) (return_call $g)))"#),
+        ("only-multi-memory", r#"(module (memory 1) (memory 1) (func (export "f") (result i32) (i32.load 1 (i32.const 0))))"#),
+        ("typed-select-numeric", r#"(module (func (export "f") (param i32) (result i64) (select (result i64) (i64.const 1) (i64.const 2) (local.get 0))))"#),
         // a ref.func target whose only declaration is the initialiser of a global nothing reaches
         ("ref-func-declared-only-by-dead-global", r#"(module (func $f) (global $dead funcref (ref.func $f)) (func (export "run") (i32.const 8330) (drop) (drop (ref.func $f))))"#),
         ("ref-func-declared-only-by-dead-passive-elem-exprs", r#"(module (func $f) (elem $dead funcref (ref.func $f)) (func (export "run") (i32.const 8331) (drop) (drop (ref.func $f))))"#),
